@@ -308,6 +308,7 @@ Inductive ev :=
 | EvCID (n : Z)            (* peer: n NEW_CONNECTION_ID frames with fresh sequence numbers *)
 | EvCIDRotate (k : Z)      (* peer: one NEW_CONNECTION_ID with a fresh sequence number whose Retire Prior To retires
                               k >= 1 of the IDs the client stores (the one in use and the k-1 lowest queued ones) *)
+| EvFresh (ty m n : Z)     (* peer: opens m further streams (ty 1 bidi, else uni) and sends n bytes on each of them *)
 | EvDgram (len : Z)        (* peer: one DATAGRAM frame of total length len *)
 | EvGrant (k : kind) (w : Z) (* client: MAX_DATA / MAX_STREAM_DATA / MAX_STREAMS raising limit k to w *)
 | EvRetireCID              (* client: retires one stored connection ID *)
@@ -380,6 +381,12 @@ Definition client_step (e : env) (s : state) (x : ev) : state * option Z :=
        of it (RFC 9000 5.1.1: the count is taken after retirement) *)
     if negb (fits_client s KCID (1 - k)) then (s, Some ConnectionIDLimitError)
     else (bump s KCID (1 - k), None)
+  | EvFresh ty m n =>
+    (* fresh streams start with the initial stream window (newFlowController) *)
+    if negb (fits_client s (cnt_kind ty) m) then (s, Some StreamLimitError)
+    else if lim_of (e_enf e) (sd_kind (if ty =? 1 then 1 else 2)) <? n then (s, Some FlowControlError)
+    else if negb (fits_client s KConn (m * n)) then (s, Some FlowControlError)
+    else (bump (bump s (cnt_kind ty) m) KConn (m * n), None)
   | EvDgram len =>
     if l_dgram (e_enf e) =? 0 then (s, Some FrameEncodingError)                    (* FrameParser.ParseType: unknown frame type *)
     else if len >? l_dgram (e_enf e) then (s, Some ProtocolViolation)              (* handleDatagramFrame *)
@@ -414,6 +421,9 @@ Definition peer_ok (e : env) (s : state) (x : ev) : bool :=
   | EvOpen ty n => (1 <=? n) && fits_peer s (cnt_kind ty) n
   | EvCID n => (0 <=? n) && fits_peer s KCID n
   | EvCIDRotate k => (1 <=? k) && (k <=? used (s KCID)) && fits_peer s KCID (1 - k)
+  | EvFresh ty m n =>
+    (1 <=? m) && (0 <=? n) && fits_peer s (cnt_kind ty) m &&
+    (n <=? lim_of (e_adv e) (sd_kind (if ty =? 1 then 1 else 2))) && fits_peer s KConn (m * n)
   | EvDgram len => (1 <=? len) && (len <=? dgram_cap (e_adv e))
   | EvGrant _ _ => true
   | EvRetireCID => true
